@@ -13,6 +13,7 @@ import (
 	"sync"
 
 	"github.com/gagliardetto/solana-go"
+	"github.com/klauspost/compress/zstd"
 	"github.com/rpcpool/yellowstone-faithful/indexes"
 	"github.com/rpcpool/yellowstone-faithful/tooling"
 )
@@ -170,8 +171,15 @@ func (s *LinkedLog) ReadWithSize(offset uint64, size uint64) ([]OffsetAndSizeAnd
 	return sigIndexes, nextOffset, nil
 }
 
+// maxDecompressedRecordSize bounds what a record may decompress to. A record
+// holds one batch of entries (a few tens of kilobytes); the zstd frame header of
+// a corrupt record can otherwise declare (and make the decoder allocate) gigabytes.
+const maxDecompressedRecordSize = 16 * MiB
+
+var recordDecoder, _ = zstd.NewReader(nil, zstd.WithDecoderMaxMemory(maxDecompressedRecordSize), zstd.WithDecoderConcurrency(1))
+
 func decompressIndexes(data []byte) ([]OffsetAndSizeAndSlot, error) {
-	decompressed, err := tooling.DecompressZstd(data)
+	decompressed, err := recordDecoder.DecodeAll(data, nil)
 	if err != nil {
 		return nil, fmt.Errorf("error while decompressing data: %w", err)
 	}
